@@ -237,6 +237,21 @@ func (m *Machine) atReturn(c *Config, fn *ssa.Function, fc *FuncContract, result
 				}
 			}
 		}
+		if best == nil {
+			// no dominating definition: the variable is still determined when exactly one of its
+			// definitions was executed on this path (a local of one switch arm)
+			var only ssa.Value
+			n := 0
+			for _, v := range vals {
+				if _, ok := c.top.regs[v]; ok && v != only {
+					only = v
+					n++
+				}
+			}
+			if n == 1 {
+				best = only
+			}
+		}
 		if best != nil {
 			if val, ok := c.top.regs[best]; ok {
 				cv := CV{V: val, Signed: isSigned(best.Type()), Typ: best.Type()}
